@@ -311,9 +311,9 @@ theorem fat16_bytes (o : FormatOpts) (d d' : Dev) (h : FormatRun o d d') {boot :
       else 0 := by
   have R := hf.regions
   have hg := hf.geom
-  obtain ⟨d0, hl0, hs0, hlog⟩ := hf.log
-  obtain ⟨dK, hsK, hsizeK, hfr⟩ := hlog.rest
-  obtain ⟨tc', s, dA, dB, dC, htc', hsA, hsizeA, hrun, hsf, hsr, hsizeC, htail⟩ := hfr.fmt
+  obtain ⟨d0, hl0, hs0, himg0, hlog⟩ := hf.log
+  obtain ⟨dK, hsK, himgK, hsizeK, hfr⟩ := hlog.rest
+  obtain ⟨tc', s, dA, dB, dC, htc', hsA, himgA, hsizeA, hrun, hsf, hsr, hsizeC, htail⟩ := hfr.fmt
   rw [htc] at htc'; cases htc'
   rw [fmtSlice_eq boot.bpb .fat16 hg.extFlags] at hrun
   have hmir : 0 < (fmtSlice boot.bpb).mirrors := by show 0 < boot.bpb.fats; omega
@@ -467,9 +467,9 @@ theorem fat32_bytes (o : FormatOpts) (d d' : Dev) (h : FormatRun o d d') {boot :
   intro G
   have R := hf.regions
   have hg := hf.geom
-  obtain ⟨d0, hl0, hs0, hlog⟩ := hf.log
-  obtain ⟨dK, hsK, hsizeK, hfr⟩ := hlog.rest
-  obtain ⟨tc', s, dA, dB, dC, htc', hsA, hsizeA, hrun, hsf, hsr, hsizeC, _⟩ := hfr.fmt
+  obtain ⟨d0, hl0, hs0, himg0, hlog⟩ := hf.log
+  obtain ⟨dK, hsK, himgK, hsizeK, hfr⟩ := hlog.rest
+  obtain ⟨tc', s, dA, dB, dC, htc', hsA, himgA, hsizeA, hrun, hsf, hsr, hsizeC, _⟩ := hfr.fmt
   rw [htc] at htc'; cases htc'
   rw [fmtSlice_eq boot.bpb .fat32 hg.extFlags] at hrun
   have hmir : 0 < (fmtSlice boot.bpb).mirrors := by show 0 < boot.bpb.fats; omega
@@ -687,9 +687,9 @@ theorem format_fat_copies_equal (o : FormatOpts) (d d' : Dev) (h : FormatRun o d
   refine ⟨boot, ft, hf.checked, fun g => ?_⟩
   have R := hf.regions
   have hg := hf.geom
-  obtain ⟨d0, hl0, hs0, hlog⟩ := hf.log
-  obtain ⟨dK, hsK, hsizeK, hfr⟩ := hlog.rest
-  obtain ⟨tc, s, dA, dB, dC, htc, hsA, hsizeA, hrun, hsf, hsr, hsizeC, _⟩ := hfr.fmt
+  obtain ⟨d0, hl0, hs0, himg0, hlog⟩ := hf.log
+  obtain ⟨dK, hsK, himgK, hsizeK, hfr⟩ := hlog.rest
+  obtain ⟨tc, s, dA, dB, dC, htc, hsA, himgA, hsizeA, hrun, hsf, hsr, hsizeC, _⟩ := hfr.fmt
   rw [fmtSlice_eq boot.bpb ft hg.extFlags] at hrun
   have hmir : 0 < (fmtSlice boot.bpb).mirrors := by show 0 < boot.bpb.fats; have := hg.fats; omega
   have hbpsO : boot.bpb.bps = o.bps := by
@@ -749,21 +749,16 @@ theorem format_fat_copies_equal (o : FormatOpts) (d d' : Dev) (h : FormatRun o d
     · intro off bs hm; right; rw [hwindow]; exact (labelSpec_within hll _ _ hm).1
   · exact copiesEqual_outside c2 (fun off bs hm => Or.inr (by rw [hwindow]; exact (labelSpec_within hll _ _ hm).1))
 
-/-! ### what is NOT proved of (2), and why
+/-! ### scope of (2) at the log-replay level, and where the rest is
 
-* **FAT12 entry values.** `Fat12::set` is a read-modify-write of a 16-bit window (`old & 0xF000 | v` resp.
-  `old & 0x000F | v << 4`): the nibble of the neighbouring entry it writes back is what the device READ returned.
-  At the level of the write log nothing is known about reads (that `Img.write`/`Img.read` realise `applyRec` on the
-  sparse page image is not proved anywhere), so the entry values of a FAT12 table after `format_fat` cannot be derived
-  here. Proved for FAT12: where it writes (`format_no_other_writes`), the zero fill, and `format_fat_copies_equal`.
-  Missing lemma: `(i.write off bs).getByte p = if off ≤ p < off + |bs| then bs[p-off] % 256 else i.getByte p` for
-  well-formed `Img` (all pages of size 4096), lifted along `run` to `d.img.getByte p = replay g d.log p % 256`.
-* **FAT32, reserved top bits.** `Fat32::set` keeps the top 4 bits it read; hence FAT32 entries are characterised up
-  to those bits (`Entry32`), which is exactly what `Fat.view` looks at.
+* **FAT12 entry values** are not derivable at the level of the write log alone (`Fat12::set` is a read-modify-write);
+  they are proved on the IMAGE in `Props/C06fat12.lean` (`formatFat_view_fat12`), using the log-to-image theorem
+  `run_img_eq_replay` (agent-effects, `Proofs/ImgReplay.lean`). `format_fat_copies_equal` here covers FAT12 too.
+* **FAT32, reserved top bits.** `Fat32::set` keeps the top 4 bits it read; FAT32 entries are characterised up to those
+  bits (`Entry32`), which is exactly what `Fat.view` looks at.
 * **FAT32 with BAD markers** (`capacity > 0x0FFFFFF0`, i.e. FATs of more than 1 GiB): excluded by hypothesis `hcap`.
-* **Success of the run** is a hypothesis (`FormatRun.ok`): `alloc_cluster` must read back a free entry 2.
-* **(6) `format_then_mount`** is not attempted; `C06.format_valid` gives `validateBoot boot = ok` and
-  `format_writes_boot` that sector 0 replays to `boot.serialize`.
+* **Success of the run** is a hypothesis (`FormatRun.ok`).
+* **`format_then_mount`** is `Props/C06mount.lean`; the root directory on the image is `Props/C06root.lean`.
 -/
 
 /-! ## the hypotheses are satisfiable -/
